@@ -12,12 +12,36 @@ Correspondence:
       (every single renaming) must yield store share/node names that differ exactly by that renaming.
 """
 import json
+import re
 
 import harness as H
 from vlib import clist, cbool
 
 LEVEL = "proof"
 FOUND = []
+STATE = {}
+
+
+def ref_expr(I, names, c, written, rel):
+    return "(resolve_str %s %s (indirect_parts %s %s))" % (
+        c_names(I, c["names"]), c_ctx(I, c), c_parts(I, written.split(".")), H.c_relation(I, names, rel))
+
+
+def ref_cases(ctx, I, spec, names, builder, text, rcases, rmetas):
+    refs = H.put_refs(spec)
+    for marker, lst in sorted(H.poke_destinations(builder).items()):
+        if marker not in refs:
+            continue
+        written, rel = refs[marker]
+        for act, dest in lst:
+            c = H.extract_ctx(act)
+            if c is None:
+                continue
+            ctx.case({"reference": written, "relation": rel, "framer": c["names"]["framer"], "share": dest},
+                     nontrivial=rel is not None or not written.startswith("."), kind="reference")
+            rcases.append((ref_expr(I, names, c, written, rel), "(Ok %s)" % c_parts(I, dest.split("."))))
+            rmetas.append({"program": text, "marker": marker, "written": written, "relation": rel,
+                           "framer": c["names"]["framer"], "share": dest, "spec": spec, "names": names})
 
 
 def c_parts(I, ps):
@@ -73,6 +97,7 @@ def run(ctx):
 
     rng = ctx.rng
     cases, metas, seen = [], [], set()
+    rcases, rmetas = [], []      # (c) written reference -> share, via RelModel + resolve model
     nprog = ctx.n(10, 150)
     nren = 0
     I = H.Interner()
@@ -137,6 +162,10 @@ def run(ctx):
                               "only_after_renaming": sorted(got - want)[:10],
                               "expected_but_missing": sorted(want - got)[:10],
                               "why": "store names after renaming are not the renamed store names"})
+        # (c) every `put` reference: parseIndirect/parseRelation model + resolvePath model vs the share
+        #     the real Builder created (clones included)
+        if ok:
+            ref_cases(ctx, I, spec, names, b, text, rcases, rmetas)
         # (a) model vs real resolvePath on the live acts
         if ok:
             add_cases(b, ctx.n(6, 12), H.PROBES)
@@ -159,13 +188,71 @@ def run(ctx):
         c, p, r = metas[i]
         ctx.tie_broken("correspondence", "C13 model vs Act.resolvePath", "ctx=%r ipath=%r impl=%r" % (c, p, r))
     ctx.extra["mismatches"] = len(bad)
+    rheader = header.replace("Require Import V.C13.Model.", "Require Import V.C13.Model V.C13.RelModel.") + (
+        "Definition norm (r : res (list N)) := match r with Ok (0 :: l) => Ok l | x => x end.\n"
+        "Definition rn_eqb (a b : res (list N)) := r_eqb (norm a) (norm b).\n")
+    rbad = ctx.coq_cases(rheader, "rn_eqb", rcases, name="refs")
+    for i in rbad[:5]:
+        ctx.tie_broken("correspondence", "C13 relation+resolve model vs share created by the Builder",
+                       json.dumps({k: v for k, v in rmetas[i].items() if k not in ("spec", "names")})[:1200])
+    STATE["rbad"] = [rmetas[i] for i in rbad]
+    STATE["rheader"] = rheader
+    ctx.extra["reference_mismatches"] = len(rbad)
     ctx.exhaustive = False
     ctx.settle(lambda: search(ctx))
+
+
+def rename_witness(ctx, m):
+    """for a reference whose share is not where the relation rules put it: look for ONE renaming under
+    which the real share path changes although the predicted path does not (or vice versa)"""
+    spec, names, marker = m["spec"], m["names"], m["marker"]
+    written, rel = m["written"], m["relation"]
+    I = H.Interner()
+    runs, exprs = [], []
+    for ent in [None] + sorted(names):
+        n2 = dict(names)
+        if ent:
+            n2[ent] = "nova"
+        ok, b = H.build(H.render(spec, n2), ctx.work, "w")
+        if not ok:
+            continue
+        for act, dest in H.poke_destinations(b).get(marker, []):
+            c = H.extract_ctx(act)
+            if c is None or (c["names"]["framer"] != m["framer"] and ent is None):
+                continue
+            runs.append((ent, names[ent] if ent else None, dest))
+            exprs.append("match norm %s with Ok l => l | _ => [999] end" % ref_expr(I, n2, c, written, rel))
+            break
+    outs = ctx.coq_eval(STATE["rheader"], exprs, name="witness")
+    inv = {v: k for k, v in I.ids.items()}
+    pred = [".".join(inv.get(int(x), "?") for x in re.findall(r"\d+", o.replace("%N", ""))) for o in outs]
+    base_real, base_pred = runs[0][2], pred[0]
+    for (ent, old, real), p in zip(runs[1:], pred[1:]):
+        if (real != base_real) != (p != base_pred):
+            return {"rename": [old, "nova"], "reference": written, "relation": rel,
+                    "share_before": base_real, "share_after": real,
+                    "expected_before": base_pred, "expected_after": p,
+                    "note": "the share path %s under this renaming, the reference's resolution %s"
+                            % ("changes" if real != base_real else "does not change",
+                               "does not depend on that name" if p == base_pred else "does")}
+    return {"reference": written, "relation": rel, "share": base_real, "expected": base_pred}
 
 
 def search(ctx):
     """implementation alone against the property statement: a program and a single renaming whose
     store names are not the renamed store names"""
+    if STATE.get("rbad"):
+        m = sorted(STATE["rbad"], key=lambda d: len(d["program"]))[0]
+        try:
+            w = rename_witness(ctx, m)
+        except Exception as ex:
+            w = {"witness_error": repr(ex)[:300]}
+        w.update({"key": "reference-depends-on-wrong-name", "program": m["program"], "marker": m["marker"],
+                  "why": "the share created for this reference is not the one the relation rules give; under the "
+                         "renaming shown its path changes although the reference does not resolve through that name",
+                  "contradicts": "C13.Props.frame_main_resolves_under_main_framer / relation_frame_default_framer / "
+                                 "resolve_equivariant"})
+        return w
     if FOUND:
         f = sorted(FOUND, key=lambda d: len(d["program"]))[0]
         f = dict(f)
